@@ -96,6 +96,7 @@ fn v2_loop<'a>(
         (re matches Some(Err(_))) && lines_of(content_of(block_with_context.block, file_blocks.file_content@)).len() > 0
             ==> r is Err, // [V2.post.bad_regex_is_err]
         // an error never comes with a silently changed report
+        forall|k2: PathBuf| k2 != *file_path && #[trigger] old(violations)@.contains_key(k2) ==> final(violations)@.contains_key(k2) && final(violations)@[k2] == old(violations)@[k2], // [V2.post.other_files_untouched]
         r is Err ==> final(violations)@ == old(violations)@, // [V2.post.err_leaves_report]
 //@tail
     proof {
@@ -131,6 +132,7 @@ fn v2_loop<'a>(
                 && violations@[*file_path]@ == map_get_or_empty(old(violations)@, *file_path).push(v)
                 && #[trigger] key_range_ok(v, block_with_context.block, re, content_of(block_with_context.block, file_blocks.file_content@), i)
                 && v.code@ == "keep-unique"@,
+            forall|k2: PathBuf| k2 != *file_path && #[trigger] old(violations)@.contains_key(k2) ==> violations@.contains_key(k2) && violations@[k2] == old(violations)@[k2],
 //@edit rule=ghost before=<<let mut seen>>
     let ghost keys = keys_of(re, content_of(block_with_context.block, file_blocks.file_content@));
 //@macro rule=E1 name=anyhow to=<<anyhow::verif_err()>>
